@@ -1,6 +1,6 @@
 SPECIFICATION Spec
 CONSTANTS Shared = TRUE
 MaxCalls = 3
-Form <- FormInOut
+Forms <- TempFileForms
 INVARIANT EachCallOwnInput
 CHECK_DEADLOCK FALSE
